@@ -1391,6 +1391,69 @@ mod oracle {
         }
     }
 
+    fn ar1_chains(n_chains: usize, n: usize, phi: f64, salt: u64) -> Vec<Vec<f64>> {
+        (0..n_chains)
+            .map(|c| {
+                let mut v = vec![0.0f64; n];
+                let mut state = 0.3 * c as f64;
+                let mut lcg: u64 = 12345 + salt + 977 * c as u64;
+                for t in 0..n {
+                    lcg = lcg.wrapping_mul(6364136223846793005).wrapping_add(1442695040888963407);
+                    let e = ((lcg >> 11) as f64 / (1u64 << 53) as f64) - 0.5;
+                    state = phi * state + e;
+                    v[t] = state;
+                }
+                v
+            })
+            .collect()
+    }
+    fn crate_ess(chains: &[Vec<f64>]) -> f64 {
+        use mini_mcmc::stats::split_rhat_mean_ess;
+        let arr = ndarray::Array3::from_shape_fn((chains.len(), chains[0].len(), 1), |(c, t, _)| chains[c][t] as f32);
+        split_rhat_mean_ess(arr.view()).1[0] as f64
+    }
+    /// ESS is a function of the array alone (whatever was computed before on the same thread), and is invariant under
+    /// affine rescaling, chain permutation and time reversal.
+    #[test]
+    fn oracle_c12_ess_invariances_and_call_sequences() {
+        // lengths visited in a non-monotone order on one thread: FFT paddings 1024, 256, 4096, 128, 512, 2048 and the brute-force path in between
+        for (k, n) in [2000usize, 300, 5000, 230, 90, 700, 2500, 260].into_iter().enumerate() {
+            for phi in [0.0f64, 0.7] {
+                let chains = ar1_chains(2, n, phi, k as u64);
+                let rounded: Vec<Vec<f64>> = chains.iter().map(|ch| ch.iter().map(|x| (*x as f32) as f64).collect()).collect();
+                let want = reference_split_ess(&rounded);
+                let got = crate_ess(&chains);
+                if !((got - want).abs() <= 5e-3 * want.abs()) {
+                    witness(format!("{{\"oracle\":\"c12\",\"call_index\":{k},\"draws\":{n},\"chains\":2,\"phi\":{phi},\"got\":{got},\"want\":{want},\"what\":\"ESS differs from M*N/tau with Geyer's monotone pair sums when computed after arrays of other lengths on the same thread\"}}"));
+                }
+            }
+        }
+        for n in [60usize, 150, 201, 400] {
+            for phi in [0.0f64, 0.6, -0.4] {
+                let chains = ar1_chains(3, n, phi, 7);
+                let base = crate_ess(&chains);
+                for (sc, sh) in [(1e-3f64, 2e-3f64), (1e-4, 0.0), (250.0, -40.0), (-3.0, 1.0)] {
+                    let t: Vec<Vec<f64>> = chains.iter().map(|ch| ch.iter().map(|x| sc * x + sh).collect()).collect();
+                    let got = crate_ess(&t);
+                    if !((got - base).abs() <= 2e-2 * base.abs()) {
+                        witness(format!("{{\"oracle\":\"c12\",\"draws\":{n},\"chains\":3,\"phi\":{phi},\"scale\":{sc},\"shift\":{sh},\"got\":{got},\"want\":{base},\"what\":\"ESS is not invariant under the affine map x -> scale*x + shift\"}}"));
+                    }
+                }
+                let mut perm = chains.clone();
+                perm.rotate_left(1);
+                let got = crate_ess(&perm);
+                if !((got - base).abs() <= 1e-3 * base.abs()) {
+                    witness(format!("{{\"oracle\":\"c12\",\"draws\":{n},\"phi\":{phi},\"got\":{got},\"want\":{base},\"what\":\"ESS is not invariant under a permutation of the chains\"}}"));
+                }
+                let rev: Vec<Vec<f64>> = chains.iter().map(|ch| ch.iter().rev().cloned().collect()).collect();
+                let got = crate_ess(&rev);
+                if !((got - base).abs() <= 2e-2 * base.abs()) {
+                    witness(format!("{{\"oracle\":\"c12\",\"draws\":{n},\"phi\":{phi},\"got\":{got},\"want\":{base},\"what\":\"ESS is not invariant under time reversal\"}}"));
+                }
+            }
+        }
+    }
+
     // ---------------------------------------------------------------- C16 ------------
     #[cfg(feature = "verif-hooks")]
     #[test]
